@@ -42,6 +42,11 @@ class SimHooks(Hooks):
                 q.events.append(('get', lv[1]))
                 out.append((q, var('GETC%d' % q.nin, 32)))
             return out
+        # std::cin.get() etc.: a read from a namespace-scope stream object (not through the routing object)
+        if name in ('get', 'peek') and 'istream' in t and o['kind'] == 'DeclRefExpr' and (o.get('referencedDecl') or {}).get('kind') == 'VarDecl':
+            p.nin += 1 if name == 'get' else 0
+            p.events.append((name, 'global:' + str((o.get('referencedDecl') or {}).get('name'))))
+            return [(p, var('GETC%d' % p.nin, 32))]
         # fileIO[index].open / put / get
         if o['kind'] == 'CXXOperatorCallExpr' and callee_of(o)[1] == 'operator[]' and 'fstream' in t:
             oc = children(o)
